@@ -15,7 +15,7 @@ use std::path::Path;
 
 pub const CHECK: Check = Check { id: "C17", level: "exploration", flavours: &["prod"], run, replay };
 
-const RULE: &str = "cases = (file tree: empty files, nested directories given as directory arguments, unicode / space / dash names, paths longer than 100 and 200 bytes, sizes \
+const RULE: &str = "cases = (file tree: empty files, nested directories given as directory arguments, symbolic links to a file and to a directory inside the tree, unicode / space / dash names, paths longer than 100 and 200 bytes, sizes \
 incl. around 128 KiB and 4 MiB; layer options; compression level; 1..3 key pairs made by `mlar keygen`; pipeline of 0..2 \
 further stages among convert(other layers / keys / level) and repair(intact archive), then negative runs) executed with the \
 `mlar` binary built from the tree. Oracle after `create` and after every stage: `list` prints exactly the given paths; \
@@ -23,7 +23,7 @@ further stages among convert(other layers / keys / level) and repair(intact arch
 name, into directories that already hold a longer stale copy of a member, the output directory being named plainly, \
 through a '..' component or through a symbolic link), `to-tar` (output archives and tar files replace \
 longer stale files in half of the cases) (parsed with the tar crate) return each file's exact bytes. Negative runs (wrong key, no key, key given for \
-an archive without encryption) on list / cat / extract / to-tar / convert / repair must exit non-zero and leave the output \
+an archive without encryption - incl. one whose header keeps the encryption parameters of another archive with the encryption bit cleared) on list / cat / extract / to-tar / convert / repair must exit non-zero and leave the output \
 file absent or empty. Non-trivial = pipeline with >= 2 stages on a tree with >= 1 empty file or nested directory; distinct \
 = hash of the case";
 
@@ -316,6 +316,22 @@ fn oracle(c: &Case, st: &mut Stats) -> Result<(), String> {
         std::fs::write(d.join("tree/only"), b"x").ok();
         expected.insert("tree/only".into(), b"x".to_vec());
     }
+    // symbolic links in the tree: `mlar create` archives what a link points to, under the link's path - a link to a
+    // file (longer than the link text), and in a third of the cases a link to a directory
+    if let Some((rel, data)) = expected.iter().find(|(k, v)| v.len() > k.len() + 8).map(|(k, v)| (k.clone(), v.clone())) {
+        let target = rel.strip_prefix("tree/").unwrap_or(&rel).to_string();
+        if std::os::unix::fs::symlink(&target, d.join("tree/alias-to-file")).is_ok() {
+            expected.insert("tree/alias-to-file".into(), data);
+        }
+    }
+    if c.reader_key % 3 == 0 {
+        let sub: Vec<(String, Vec<u8>)> = expected.iter().filter(|(k, _)| k.starts_with("tree/sub dir/")).map(|(k, v)| (k.clone(), v.clone())).collect();
+        if !sub.is_empty() && std::os::unix::fs::symlink("sub dir", d.join("tree/alias-to-dir")).is_ok() {
+            for (k, v) in sub {
+                expected.insert(k.replacen("tree/sub dir/", "tree/alias-to-dir/", 1), v);
+            }
+        }
+    }
     // ---- create
     let mut cur = c.create;
     if effective_layers(&cur) & 1 != 0 && recipients(&cur, nkeys).is_empty() {
@@ -391,6 +407,25 @@ fn oracle(c: &Case, st: &mut Stats) -> Result<(), String> {
     must_fail(&s, with(vec!["to-tar".into(), "-i".into(), archive.clone(), "-o".into(), "neg.tar".into()]), Some("neg.tar"), why, st)?;
     must_fail(&s, with(vec!["convert".into(), "-i".into(), archive.clone(), "-o".into(), "neg.conv".into(), "-l".into()]), Some("neg.conv"), why, st)?;
     must_fail(&s, with(vec!["repair".into(), "-i".into(), archive.clone(), "-o".into(), "neg.rep".into(), "-l".into()]), Some("neg.rep"), why, st)?;
+    // an archive that is not encrypted although its header still carries encryption parameters (the header of an
+    // encrypted archive with the encryption bit cleared, followed by the body of the unencrypted one): a key given
+    // for it is a key given for an unencrypted archive
+    if !enc && c.reader_key % 2 == 1 {
+        run_ok(&["create".into(), "-l".into(), "encrypt".into(), "-p".into(), "k0.pub".into(), "-o".into(), "hdr.mla".into(), "--".into(), first.clone()], &d, "create (header donor)")?;
+        let e = std::fs::read(d.join("hdr.mla")).map_err(|e| format!("HARNESS: {e}"))?;
+        let p = std::fs::read(d.join(&archive)).map_err(|e| format!("HARNESS: {e}"))?;
+        let (he, hp) = (crate::refimpl::parse_header(&e).map_err(|e| format!("HARNESS: {e}"))?, crate::refimpl::parse_header(&p).map_err(|e| format!("HARNESS: {e}"))?);
+        let mut forged = e[..he.len].to_vec();
+        forged[7] = p[7] & !1;
+        forged.extend_from_slice(&p[hp.len..]);
+        std::fs::write(d.join("down.mla"), &forged).map_err(|e| format!("HARNESS: {e}"))?;
+        let why2 = "private key given for an archive whose header keeps encryption parameters but is not encrypted";
+        must_fail(&s, vec!["list".into(), "-i".into(), "down.mla".into(), "-k".into(), "k0".into()], None, why2, st)?;
+        must_fail(&s, vec!["cat".into(), "-i".into(), "down.mla".into(), "-k".into(), "k0".into(), "-o".into(), "neg2.cat".into(), first.clone()], Some("neg2.cat"), why2, st)?;
+        must_fail(&s, vec!["extract".into(), "-i".into(), "down.mla".into(), "-k".into(), "k0".into(), "-o".into(), "neg2.x".into()], Some("neg2.x"), why2, st)?;
+        must_fail(&s, vec!["repair".into(), "-i".into(), "down.mla".into(), "-k".into(), "k0".into(), "-o".into(), "neg2.rep".into(), "-l".into()], Some("neg2.rep"), why2, st)?;
+        st.label("negative: downgraded header");
+    }
     st.label(format!("create-layers={}", cur.layers));
     st.label(format!("stages={}", c.stages.len()));
     st.label(format!("negative-kind={why}"));
